@@ -1173,14 +1173,19 @@ static void gen_expr(Node *node) {
       println("  fcomip");
       println("  fstp %%st(0)");
 
-      if (node->kind == ND_EQ)
+      if (node->kind == ND_EQ) {
         println("  sete %%al");
-      else if (node->kind == ND_NE)
+        println("  setnp %%dl");
+        println("  and %%dl, %%al");
+      } else if (node->kind == ND_NE) {
         println("  setne %%al");
-      else if (node->kind == ND_LT)
+        println("  setp %%dl");
+        println("  or %%dl, %%al");
+      } else if (node->kind == ND_LT) {
         println("  seta %%al");
-      else
+      } else {
         println("  setae %%al");
+      }
 
       println("  movzb %%al, %%rax");
       return;
